@@ -98,7 +98,7 @@ def definite_unbound_locals(run, f, may=False):
     (may=True: that SOME explored path reaches unassigned - over-approximate, needs triage):
     executing the statement always raises UnboundLocalError.  (Path-exhaustive over E3; a load that is unassigned only
     on some paths is not reported - that may be an infeasible path.)"""
-    from .absint import Domain, Interp, NORMAL
+    from .absint import Domain, Interp, NORMAL, RAISE
 
     fnode = f.node
     a = fnode.args
@@ -154,6 +154,11 @@ def definite_unbound_locals(run, f, may=False):
     class Dom(Domain):
         def initial(self):
             return frozenset()
+
+        def on_event(self, node, state):
+            yield state, NORMAL
+            if isinstance(node, ast.Call):      # any call may raise: handler bodies are reached with what was bound before the call
+                yield state, RAISE("BaseException")
 
         def on_store(self, target, value, state, stmt):
             for t in ast.walk(target) if isinstance(target, ast.AST) else []:
